@@ -159,9 +159,9 @@ Section AnyHandler.
                                     | Some l => Some (VList (l ++ [VStr p])) | None => None end
                   | _, _ => Some (task_deps_of d) end) as [deps|] eqn:Ed.
         * destruct Hdeps as [Hcall Hno].
-          destruct (i_name x) as [s| | | | | | |] eqn:En.
+          destruct (i_name x) as [s| | | | | | | |] eqn:En.
           (* a hashable name that is not a string: the call is issued, then ":" + name raises *)
-          2-8: (assert (Hp : member_problem d earlier (MInst x) = Some (true, EGroupInvalidInstance));
+          2-9: (assert (Hp : member_problem d earlier (MInst x) = Some (true, EGroupInvalidInstance));
                 [ cbn [member_problem]; rewrite En, Ein; destruct (g_chain d); [|reflexivity];
                   destruct earlier; [reflexivity|];
                   destruct (spread (task_deps_of d)); [reflexivity | discriminate Hno]
